@@ -7,6 +7,11 @@ usage: tools/benign_rename.py [reformat|suffix|scramble] [PID ...]
   scramble  every function-local variable renamed  name -> l<6 hex digits> (no part of the old name survives)
   pass      a `pass` statement inserted after every statement of every function body (except after return/break/continue/raise)
   wrap      every function body wrapped in `if True:` ... (one more nesting level; statement order unchanged)
+  invert    every `if c: A else: B` (B not an elif chain) rewritten as `if not c: B else: A`
+  guard     every loop body that is one `if c:` without else rewritten as `if not c: continue` followed by the body
+  yoda      operands of every == / != comparison swapped
+  augassign every `x = x <op> e` rewritten as `x <op>= e`
+  emptyctor every empty `[]` / `{}` literal on the right of an assignment rewritten as list() / dict()
 Locals are names stored in the function body that are not parameters, not global/nonlocal, and not read by a nested function.
 The variant is written to a scratch directory (removed afterwards), every check is run with --repo <scratch>, and every
 VIOLATION / ANALYSIS-ERROR is printed: each one is a false alarm (or a broken anchor) of the checker, since the variant behaves
@@ -89,8 +94,67 @@ class AddPass(ast.NodeTransformer):
     visit_AsyncFunctionDef = visit_FunctionDef
 
 
+class Invert(ast.NodeTransformer):
+    def visit_If(self, node):
+        self.generic_visit(node)
+        if node.orelse and not (len(node.orelse) == 1 and isinstance(node.orelse[0], ast.If)):
+            t = node.test
+            nt = t.operand if isinstance(t, ast.UnaryOp) and isinstance(t.op, ast.Not) else ast.UnaryOp(op=ast.Not(), operand=t)
+            return ast.If(test=nt, body=node.orelse, orelse=node.body)
+        return node
+
+
+class Guard(ast.NodeTransformer):
+    def _loop(self, node):
+        self.generic_visit(node)
+        if len(node.body) == 1 and isinstance(node.body[0], ast.If) and not node.body[0].orelse:
+            i = node.body[0]
+            t = i.test
+            nt = t.operand if isinstance(t, ast.UnaryOp) and isinstance(t.op, ast.Not) else ast.UnaryOp(op=ast.Not(), operand=t)
+            node.body = [ast.If(test=nt, body=[ast.Continue()], orelse=[])] + i.body
+        return node
+    visit_For = _loop
+    visit_While = _loop
+
+
+class Yoda(ast.NodeTransformer):
+    def visit_Compare(self, node):
+        self.generic_visit(node)
+        if len(node.ops) == 1 and isinstance(node.ops[0], (ast.Eq, ast.NotEq)):
+            return ast.Compare(left=node.comparators[0], ops=node.ops, comparators=[node.left])
+        return node
+
+
+class Aug(ast.NodeTransformer):
+    def visit_Assign(self, node):
+        self.generic_visit(node)
+        if len(node.targets) == 1 and isinstance(node.targets[0], ast.Name) and isinstance(node.value, ast.BinOp) \
+                and isinstance(node.value.left, ast.Name) and node.value.left.id == node.targets[0].id \
+                and isinstance(node.value.op, (ast.Add, ast.Sub, ast.BitOr, ast.BitAnd, ast.Mult)):
+            return ast.AugAssign(target=ast.Name(id=node.targets[0].id, ctx=ast.Store()), op=node.value.op, value=node.value.right)
+        return node
+
+
+class EmptyCtor(ast.NodeTransformer):
+    def visit_Assign(self, node):
+        self.generic_visit(node)
+        v = node.value
+        if isinstance(v, ast.List) and not v.elts:
+            node.value = ast.Call(func=ast.Name(id="list", ctx=ast.Load()), args=[], keywords=[])
+        elif isinstance(v, ast.Dict) and not v.keys:
+            node.value = ast.Call(func=ast.Name(id="dict", ctx=ast.Load()), args=[], keywords=[])
+        return node
+
+
+TRANSFORMERS = {"invert": Invert, "guard": Guard, "yoda": Yoda, "augassign": Aug, "emptyctor": EmptyCtor}
+
+
 def transform(src: str) -> str:
     t = ast.parse(src)
+    if mode in TRANSFORMERS:
+        t = TRANSFORMERS[mode]().visit(t)
+        ast.fix_missing_locations(t)
+        return ast.unparse(t) + "\n"
     if mode == "pass":
         t = AddPass().visit(t)
         ast.fix_missing_locations(t)
